@@ -52,6 +52,26 @@ func storeMachine(t *rapid.T, prop string, kind gen.StoreKind) {
 			cl.label("op:" + op.Kind)
 			steps++
 		},
+		"mutate-many": func(t *rapid.T) {
+			// several additions back to back with no read in between (reads sort/compact the paginated store:
+			// states that only exist between reads are otherwise never observed)
+			n := rapid.IntRange(2, 8).Draw(t, "many")
+			for i := 0; i < n; i++ {
+				op := g.drawSimple(t, u.m.Total())
+				if rapid.IntRange(0, 2).Draw(t, "manyburst") == 0 {
+					if b := g.burst(t); bud.Fits(u.m.Total() + float64(len(b))) {
+						op = sop{Kind: "burst", Burst: b}
+					}
+				}
+				cl.logf("%s", op)
+				if msg := u.apply(op); msg != "" {
+					t.Fatalf("%s %s after %s: %s", prop, kind, op, msg)
+				}
+				cl.label("op:" + op.Kind)
+				steps++
+			}
+			cl.label("mutate-many")
+		},
 		"read": func(t *rapid.T) {
 			k := rapid.IntRange(1, 8).Draw(t, "stopAt")
 			cl.logf("ForEach(stop at %d)", k)
